@@ -177,3 +177,127 @@ def check_exact_comparisons(ix, rep, prefixes=('rtamt/semantics/',), rule='R-TRU
         else:
             rep.ok(rule, mod.rel, '<module>', 'exact-comparisons', 'no comparison up to a tolerance', 1)
     return n
+
+
+def check_dense_values(ix, rep, funcs, label, rule='R-TRUTHY'):
+    """dense-time code: the value component of an emitted sample ([t, v] / (t0, t1, v)) and everything it is computed from through min / max /
+    plain copies is a robustness value; using one for its truth value (`if nxt:`, `nxt or ..`, `not v`) treats 0.0 -- a value exactly on the
+    threshold -- and None alike.  Names are typed backwards from the emission sites and forwards through copies, per function."""
+    n = 0
+    for f in funcs:
+        values = set()
+
+        def val_names(e, acc):
+            if isinstance(e, ast.Name):
+                acc.add(e.id)
+            elif isinstance(e, ast.Attribute) and isinstance(e.value, ast.Name) and e.value.id == 'self':
+                acc.add('self.' + e.attr)
+            elif isinstance(e, ast.Call) and isinstance(e.func, ast.Name) and e.func.id in ('min', 'max'):
+                for a in e.args:
+                    val_names(a, acc)
+            elif isinstance(e, ast.UnaryOp) and isinstance(e.op, ast.USub):
+                val_names(e.operand, acc)
+            elif isinstance(e, ast.IfExp):
+                val_names(e.body, acc)
+                val_names(e.orelse, acc)
+
+        def key(t):
+            if isinstance(t, ast.Name):
+                return t.id
+            if isinstance(t, ast.Attribute) and isinstance(t.value, ast.Name) and t.value.id == 'self':
+                return 'self.' + t.attr
+            return None
+        for x in ast.walk(f.node):
+            if isinstance(x, ast.Call) and isinstance(x.func, ast.Attribute) and x.func.attr in ('append', 'insert') and x.args \
+                    and isinstance(x.args[-1], (ast.List, ast.Tuple)) and len(x.args[-1].elts) in (2, 3):
+                val_names(x.args[-1].elts[-1], values)
+        for _ in range(6):
+            before = len(values)
+            for x in ast.walk(f.node):
+                if isinstance(x, ast.Assign) and len(x.targets) == 1 and key(x.targets[0]) is not None:
+                    k = key(x.targets[0])
+                    acc = set()
+                    val_names(x.value, acc)
+                    if k in values:
+                        values |= acc                     # what a value is computed from
+                    elif acc & values and isinstance(x.value, (ast.Name, ast.Attribute, ast.Call, ast.UnaryOp, ast.IfExp)):
+                        values.add(k)                      # a copy / min / max of values
+            if len(values) == before:
+                break
+        if not values:
+            continue
+        n += 1
+        rep.analysed(f)
+        bad = []
+        for e in _truth_uses(f.node):
+            k = key(e)
+            if k in values:
+                bad.append((e, k))
+        if bad:
+            for e, k in bad[:3]:
+                rep.fail(rule, f.module.rel, f.qual, '%s:truth-of:%s' % (label, k), '`%s` holds a robustness value (it is emitted as the value of a sample, or a value is computed from it) '
+                         'and is used for its truth value: a robustness of exactly 0.0 is taken for "nothing there"' % k, e.lineno)
+        else:
+            rep.ok(rule, f.module.rel, f.qual, '%s:values-not-flags' % label, 'no robustness value is used for its truth value (%d value names)' % len(values), f.node.lineno)
+    return n
+
+
+def check_entry_verbatim(ix, rep, f, kind, rule='R-ENTRY'):
+    """the samples the monitor computes with are the samples the caller supplied: what a data-entry function stores for a variable is the value
+    it took out of the data set, or a container copy of it (`list(v)`, `v[:]`, `copy(v)`) -- never a conversion of the elements.  `float(v)` of
+    an int sample above 2**53 is another number; round(), int(), a numpy cast likewise."""
+    if len(f.node.args.args) < 2:
+        return 0
+    dparam = f.node.args.args[-1].arg
+    tainted = {dparam}
+    changed = True
+    while changed:
+        changed = False
+        for n in ast.walk(f.node):
+            pairs = []
+            if isinstance(n, ast.Assign) and len(n.targets) == 1 and isinstance(n.targets[0], ast.Name):
+                pairs.append((n.targets[0].id, n.value))
+            elif isinstance(n, ast.Assign) and len(n.targets) == 1 and isinstance(n.targets[0], ast.Tuple):
+                for t in n.targets[0].elts:
+                    if isinstance(t, ast.Name):
+                        pairs.append((t.id, n.value))
+            elif isinstance(n, (ast.For, ast.comprehension)):
+                for t in ast.walk(n.target):
+                    if isinstance(t, ast.Name):
+                        pairs.append((t.id, n.iter))
+            for name, val in pairs:
+                if name not in tainted and any(isinstance(x, ast.Name) and x.id in tainted for x in ast.walk(val)):
+                    tainted.add(name)
+                    changed = True
+
+    def verbatim(v):
+        if isinstance(v, ast.Name):
+            return True
+        if isinstance(v, ast.Subscript):
+            return verbatim(v.value)          # data[k], data[1], v[:]
+        if isinstance(v, ast.Attribute):
+            return verbatim(v.value)
+        if isinstance(v, ast.Call) and not v.keywords and len(v.args) == 1:
+            fn = ast.unparse(v.func)
+            if fn in ('list', 'copy', 'copy.copy', 'copy.deepcopy', 'deepcopy'):
+                return verbatim(v.args[0])
+        return False
+    n = 0
+    for st in ast.walk(f.node):
+        if not (isinstance(st, ast.Assign) and len(st.targets) == 1):
+            continue
+        t = st.targets[0]
+        is_store = (isinstance(t, ast.Subscript) and 'var_object_dict' in ast.unparse(t.value)) or (isinstance(t, ast.Attribute) and t.attr == 'sample')
+        if not is_store:
+            continue
+        if not any(isinstance(x, ast.Name) and x.id in tainted for x in ast.walk(st.value)):
+            continue
+        n += 1
+        slot = '%s:entry:%s' % (kind, ast.unparse(t)[:40])
+        if verbatim(st.value):
+            rep.ok(rule, f.module.rel, f.qual, slot, 'the supplied value (or a container copy of it) is stored', st.lineno)
+        else:
+            rep.fail(rule, f.module.rel, f.qual, slot, 'what is stored for the variable is `%s`, a conversion of the supplied samples: the monitor computes with other numbers than '
+                     'the caller gave it (an int sample above 2**53 becomes a different float; the robustness between two such signals loses its sign)'
+                     % ast.unparse(st.value)[:70], st.lineno)
+    return n
